@@ -6,9 +6,5 @@ CONSTANTS
   HdrLen = 18
   TagLen = 16
   MinInitLen = 6
-INVARIANT ExactDelivery
-INVARIANT TamperDisconnects
-INVARIANT InitFirst
-INVARIANT NoPanic
 POSTCONDITION TraceAccepted
 CHECK_DEADLOCK FALSE
